@@ -31,10 +31,17 @@ def parallel_requests(ctx, n):
     out = []
     for _ in range(n):
         tr = ctx.rng.choice(PL.modes())
-        hkl = ctx.rng.choice([(0, 0, 1), (1, 0, 0), (1, 1, 0), (0, 1, 1)])
+        hkl = ctx.rng.choice([(0, 0, 1), (1, 0, 0), (1, 1, 0), (0, 1, 1), (1, 1, 1), (1, 0, 1), (2, 1, 0), (-1, 2, 1)])
         s = ctx.rng.choice([1.0, -1.0, 2.5, -0.5])
-        ub = mk_ub(lattice=ctx.rng.choice([(1.0,), (4.1, 5.2, 6.3, 80, 95, 100)]), rotvec=ctx.rng.choice([(0, 0, 0), (0.3, -0.5, 0.7)]),
-                   n_hkl=tuple(s * x for x in hkl), surf_nhkl=tuple(-s * x for x in hkl))
+        lattice = ctx.rng.choice([(1.0,), (4.1, 5.2, 6.3, 80, 95, 100)]); rotvec = ctx.rng.choice([(0, 0, 0), (0.3, -0.5, 0.7)])
+        if lattice == (1.0,) and rotvec == (0, 0, 0) and ctx.rng.random() < 0.6:
+            # cubic, U = 1: the lab-frame direction of hkl is hkl itself — vectors given in the LAB frame, as Python ints or floats
+            k = ctx.rng.choice([1, -1, 2])
+            conv = ctx.rng.choice([int, int, float])
+            ub = mk_ub(lattice=lattice, rotvec=rotvec, n_hkl=None, n_phi=tuple(conv(k * x) for x in hkl),
+                       surf_nhkl=None, surf_nphi=tuple(conv(-k * x) for x in hkl))
+        else:
+            ub = mk_ub(lattice=lattice, rotvec=rotvec, n_hkl=tuple(s * x for x in hkl), surf_nhkl=tuple(-s * x for x in hkl))
         vals = {nm: (True if nm in VOID else float(ctx.rng.choice(PL.SPECIAL + [12.5, -33.0]))) for nm in tr}
         out.append((ub, vals, tuple(float(x) for x in hkl), ctx.rng.choice([1.0, 0.5]), "parallel"))
     return out
